@@ -3,6 +3,8 @@ package clover
 import (
 	"errors"
 	"fmt"
+	"os"
+	"path/filepath"
 	"testing"
 
 	d "github.com/ostafen/clover/v2/document"
@@ -96,5 +98,59 @@ func TestVerifReplayBulkUnderCursor(t *testing.T) {
 	}
 	if failed > 0 {
 		t.Fatal("bulk writes under an open cursor lose documents")
+	}
+}
+
+// ImportCollection / CreateCollectionByQuery: a failing call must leave the database as it was (C04)
+// and must not panic on an ill-formed file (C20, C19).
+func TestVerifReplayImport(t *testing.T) {
+	failed := 0
+	dir := t.TempDir()
+	db, err := Open(dir)
+	if err != nil {
+		t.Fatal(err)
+	}
+	defer db.Close()
+	write := func(name, content string) string {
+		p := filepath.Join(dir, name)
+		os.WriteFile(p, []byte(content), 0o644)
+		return p
+	}
+	try := func(what string, f func() error) {
+		var err error
+		panicked := false
+		func() {
+			defer func() {
+				if e := recover(); e != nil {
+					panicked = true
+					fmt.Printf("REPLAY FAIL scenario: %s panics: %v\n", what, e)
+					failed++
+				}
+			}()
+			err = f()
+		}()
+		if panicked {
+			return
+		}
+		has, _ := db.HasCollection("target")
+		if err != nil && has {
+			fmt.Printf("REPLAY FAIL scenario: %s returned error %q but left collection \"target\" behind\n", what, err)
+			failed++
+			db.DropCollection("target")
+		} else {
+			fmt.Printf("REPLAY PASS scenario: %s: err=%v, collection created=%v\n", what, err, has)
+			if has {
+				db.DropCollection("target")
+			}
+		}
+	}
+	try("ImportCollection of a file that is not JSON", func() error { return db.ImportCollection("target", write("bad.json", "{not json")) })
+	try("ImportCollection of a JSON array containing null", func() error { return db.ImportCollection("target", write("null.json", `[{"a":1}, null]`)) })
+	try("ImportCollection of two documents with the same _id", func() error {
+		return db.ImportCollection("target", write("dup.json", `[{"_id":"0d8b1f0c-5b0e-4b57-9d3e-2f6f3f1d7a11","a":1},{"_id":"0d8b1f0c-5b0e-4b57-9d3e-2f6f3f1d7a11","a":2}]`))
+	})
+	try("CreateCollectionByQuery from a missing source collection", func() error { return db.CreateCollectionByQuery("target", query.NewQuery("nosuch")) })
+	if failed > 0 {
+		t.Fatal("a failed composite operation panicked or left a trace")
 	}
 }
